@@ -68,6 +68,15 @@ func conjuncts(e ast.Expr) []ast.Expr {
 // boolLocal resolves a condition that is a boolean local with a single definition to that definition
 // (`pipedFirst := !args.HasPipeSlot && pipedArg != nil; if pipedFirst {`), also under a negation.
 func boolLocal(f *an.Fn, cond ast.Expr) ast.Expr {
+	// a predicate method/function extracted from the condition: `if a.hasImplicitPipedArg() {` with
+	// `func (a *Arguments) hasImplicitPipedArg() bool { return a.pipedVal != nil && !a.args.HasPipeSlot }`
+	if call, ok := an.Unparen(cond).(*ast.CallExpr); ok && f.P != nil && len(call.Args) == 0 {
+		if h := f.P.NewHelperCallee(f, call); h != nil && h.Body != nil && len(h.Body.List) == 1 {
+			if ret, ok := h.Body.List[0].(*ast.ReturnStmt); ok && len(ret.Results) == 1 {
+				return ret.Results[0]
+			}
+		}
+	}
 	id, ok := an.Unparen(cond).(*ast.Ident)
 	if !ok {
 		return cond
@@ -418,15 +427,39 @@ func runC14(c *an.Ctx) {
 		} else {
 			call := later[0]
 			var loop *ast.ForStmt
+			var rloop *ast.RangeStmt
 			for _, enc := range an.EnclosingStmts(f, call) {
 				if fs, isFor := enc.(*ast.ForStmt); isFor {
 					loop = fs
 				}
+				if rs, isRange := enc.(*ast.RangeStmt); isRange {
+					rloop = rs
+				}
 			}
+			squash := func(x string) string { return strings.ReplaceAll(x, " ", "") }
 			switch {
-			case loop == nil:
+			case loop == nil && rloop == nil:
 				ok, why = false, "later commands are not evaluated in a loop"
-			case strings.ReplaceAll(an.StmtStr(loop.Init), " ", "") != "i:=1" || strings.ReplaceAll(an.Str(loop.Cond), " ", "") != "i<len(node.Cmds)" || strings.ReplaceAll(an.StmtStr(loop.Post), " ", "") != "i++":
+			case rloop != nil && loop == nil:
+				// for _, cmd := range X.Cmds[1:] { … cmd … }: every later command once, in order
+				v, isId := rloop.Value.(*ast.Ident)
+				a, argIsId := an.Unparen(call.Args[0]).(*ast.Ident)
+				switch {
+				case squash(an.Norm(f, rloop.X)) != "$p0.Cmds[1:]":
+					ok, why = false, "the loop over the later commands ranges over "+an.Str(rloop.X)+", not over Cmds[1:]"
+				case !isId || !argIsId || an.ObjOf(info, v) != an.ObjOf(info, a):
+					ok, why = false, "the command evaluated in the loop is not the loop's element"
+				case func() bool {
+					for _, d := range an.LocalDefs(f, an.ObjOf(info, v)) {
+						if d != nil {
+							return true
+						}
+					}
+					return false
+				}():
+					ok, why = false, "the loop's element variable is reassigned in the loop"
+				}
+			case squash(an.StmtStr(loop.Init)) != "i:=1" || squash(an.Str(loop.Cond)) != "i<len(node.Cmds)" || squash(an.StmtStr(loop.Post)) != "i++":
 				ok, why = false, fmt.Sprintf("the loop over the later commands is `for %s; %s; %s`, not `for i := 1; i < len(node.Cmds); i++`", an.StmtStr(loop.Init), an.Str(loop.Cond), an.StmtStr(loop.Post))
 			case an.Str(call.Args[0]) != "node.Cmds[i]":
 				ok, why = false, "the command evaluated in the loop is not Cmds[i]"
